@@ -397,7 +397,7 @@ class Charge:
         )
 
         return xr.DataArray(
-            data_2d,
+            data_2d.copy(),
             name="charge",
             dims=["y", "x"],
             coords={"y": rows, "x": cols},
